@@ -311,6 +311,20 @@ def r4(ctx):
         yield VIOL("C12-R4", "from_request_parts/body-emptied-without-uri", "the body can be emptied on a path where parts.uri was not rebuilt (parameters authenticated, then lost)", where=loc(bdefs[0]["stmt"]["span"]))
     elif bdefs:
         yield PASS("C12-R4", "from_request_parts/uri-before-emptying", "parts.uri assignment dominates the emptying of the body", [])
+    # once the body was decoded as a form (its fields are going to be merged into the authenticated parameters), success is
+    # only reachable through the rebuilt URI *and* the emptied body: no Ok with the fields authenticated but the request
+    # handed back as received (hash of a non-empty body next to the folded parameters; fields counted twice downstream)
+    dec = b.calls(r"encoding::Encoding::decode$")
+    oks = [ob for ob, _, _ in result_aggs(b, "Ok")]
+    if len(dec) == 1 and oks and bdefs:
+        skip_uri = [ob for ob in oks if ob in b._reachable_from(dec[0][0], avoid={u["block"]})]
+        skip_body = [ob for ob in oks if ob in b._reachable_from(dec[0][0], avoid={d["block"] for d in bdefs})]
+        if skip_uri or skip_body:
+            yield VIOL("C12-R4", "from_request_parts/folded-without-%s" % ("uri" if skip_uri else "emptying"), "after the form body was decoded, the success exit can be reached without %s: the fields are authenticated as query parameters while the request is returned as received" % " and without ".join((["rebuilding parts.uri"] if skip_uri else []) + (["emptying the body"] if skip_body else [])), where=b.span_of_block(dec[0][0]))
+        else:
+            yield PASS("C12-R4", "from_request_parts/folded-implies-rebuilt", "every path from the form decoding to Ok passes the parts.uri assignment and the emptying of the body", [])
+    else:
+        yield MISSING("C12-R4", "from_request_parts/folded-implies-rebuilt", "form decoding call / Ok result / body emptying not found (%d, %d, %d)" % (len(dec), len(oks), len(bdefs)))
 
 
 @M.rule("C12-R5", "undecodable bodies and unknown charsets are InvalidBodyEncoding; strict decoding; charset parameter matched case-insensitively")
